@@ -92,6 +92,18 @@ class BackoffInterp:
                     r = sub.ev(pdefs[0], depth + 1)
                     self.problems += sub.problems
                     return r
+            # another parameter of the factory with a positive numeric default (e.g. a configurable base): a positive constant of the policy
+            for owner in (self.f, self.f.parent):
+                if owner is None or isinstance(owner.node, ast.Lambda):
+                    continue
+                a_ = owner.node.args
+                allp = a_.posonlyargs + a_.args
+                dflt = {x.arg: dv for x, dv in zip(allp[len(allp) - len(a_.defaults):], a_.defaults)}
+                dflt.update({x.arg: dv for x, dv in zip(a_.kwonlyargs, a_.kw_defaults) if dv is not None})
+                dv = dflt.get(e.id)
+                if isinstance(dv, ast.Constant) and isinstance(dv.value, (int, float)) and not isinstance(dv.value, bool) and dv.value >= 1:
+                    self.ctx.note(f"{self.rule}: factory parameter '{e.id}' (default {dv.value}) is taken as a constant >= 1 of the policy; the property's quantifier names only the original parameters")
+                    return Abs("const")
             raise AnalysisError(f"{self.f.qualname}: cannot interpret name '{e.id}' in the back-off expression")
         if isinstance(e, ast.Call):
             d = (dotted(e.func) or "").split(".")[-1]
@@ -202,7 +214,7 @@ def overdue_siblings(ctx: Ctx, rule: str) -> None:
         # a shared module-level helper (`_ttl_expired(self.timestamp, self.ttl)`) is read in the caller's terms
         g = ctx.icfg(f, substitute=True)
         inlined_calls = {id(c.ast) for c in g.nodes if c.kind == "call" and c.meta.get("inlined")}
-        tests = [t for t in g.nodes if t.kind == "test"]
+        tests = [t for t in g.nodes if t.kind == "test" and not t.meta.get("assert")]  # a debug assertion re-states, it does not decide
         t0 = C.inline_locals(tests[0].func, tests[0].ast) if len(tests) == 1 else None
         ok = len(tests) == 1 and isinstance(t0, ast.Compare) and isinstance(t0.ops[0], (ast.Is, ast.IsNot)) \
             and dotted(t0.left) == "self.ttl" and C.is_const(t0.comparators[0], None)
